@@ -785,6 +785,15 @@ func (w *Writer) OpenStream(ref Reference, dict Dict, filters ...Filter) (io.Wri
 		streamBody = enc
 	}
 
+	// The filters given here are applied on top of whatever encoding the
+	// dictionary already declares for the data the caller is going to write,
+	// so a reader has to undo them first: their names go in front.
+	oldFilter, hadFilter := streamDict["Filter"]
+	oldParms := streamDict["DecodeParms"]
+	if hadFilter && len(filters) > 0 {
+		delete(streamDict, "Filter")
+		delete(streamDict, "DecodeParms")
+	}
 	for _, filter := range filters {
 		streamBody, err = filter.Encode(w.meta.Version, streamBody)
 		if err != nil {
@@ -796,6 +805,24 @@ func (w *Writer) OpenStream(ref Reference, dict Dict, filters ...Filter) (io.Wri
 			return nil, err
 		}
 		appendFilter(streamDict, name, parms)
+	}
+	if hadFilter && len(filters) > 0 {
+		var names, parms Array
+		switch f := oldFilter.(type) {
+		case Name:
+			names, parms = Array{f}, Array{oldParms}
+		case Array:
+			names = f
+			parms, _ = oldParms.(Array)
+		}
+		for i, n := range names {
+			name, _ := n.(Name)
+			var p Dict
+			if i < len(parms) {
+				p, _ = parms[i].(Dict)
+			}
+			appendFilter(streamDict, name, p)
+		}
 	}
 
 	w.inStream = true
